@@ -368,6 +368,20 @@ def adjoint_sources(ctx):
         i_, rec = lv.elts[0].id, lv.elts[1].id
         co = find(f'_c_ = {rec}.coordinates_abs(self.survey.sources['
                   f'{ps[1]}])', loop[0])
+        if not co:
+            # the survey source bound to a local first: that local must have
+            # this one definition only (not be re-used inside the loop)
+            for n_, b_ in find(f'_c_ = {rec}.coordinates_abs(_s_)', loop[0]):
+                S_ = b_['_s_']
+                defs_ = [d for d in ast.walk(fn) if isinstance(
+                    d, (ast.Assign, ast.AugAssign, ast.For)) and any(
+                        isinstance(x, ast.Name) and x.id == S_ and
+                        isinstance(x.ctx, ast.Store) for x in ast.walk(d)
+                        if not isinstance(d, ast.For) or x in ast.walk(
+                            d.target))]
+                if S_.isidentifier() and len(defs_) == 1 and has(
+                        f'{S_} = self.survey.sources[{ps[1]}]', defs_[0]):
+                    co = [(n_, b_)]
         ok2 = len(co) == 1
         if ok2:
             sr = find(f'_x_ = {rec}._adjoint_source({co[0][1]["_c_"]}, '
@@ -392,6 +406,43 @@ def adjoint_sources(ctx):
               has('_r_.coordinates_abs(self.sources[_s_])', rt),
               'forward responses are not sampled at the same absolute '
               'coordinates the adjoint sources use', ctx.where(su, rt))
+    # forward sampling stores each response in the slot of its own receiver:
+    # the index arrays of the electric / magnetic receivers (survey order)
+    # address the response vector, each with the coordinates of its own type
+    # (the adjoint sources above are built receiver by receiver in survey
+    # order, so any other slot convention pairs data with another receiver)
+    gr_ = sm.method('Simulation', '_get_responses')
+    it_ = find('_e_, _m_ = self.survey._irec_types', gr_)
+    ic_ = find(f'_ec_, _mc_ = self.survey._rec_types_coord('
+               f'{au.params(gr_)[1]})', gr_)
+    ok = len(it_) == 1 and len(ic_) == 1
+    if ok:
+        e_, m_ = it_[0][1]['_e_'], it_[0][1]['_m_']
+        ec_, mc_ = ic_[0][1]['_ec_'], ic_[0][1]['_mc_']
+        ok = has(f'_r_[{e_}] = _f_.get_receiver(receiver={ec_}, method=__)',
+                 gr_) and \
+            has(f'_r_[{m_}] = _h_.get_receiver(receiver={mc_}, method=__)',
+                gr_)
+        sts = [n for n in ast.walk(gr_) if isinstance(n, ast.Assign) and
+               isinstance(n.targets[0], ast.Subscript) and
+               'get_receiver' in ast.unparse(n.value)]
+        ok = ok and len(sts) == 2
+    ctx.check('C07.AS.source', '_get_responses: responses stored at the '
+              'indices of their receivers', ok, 'electric / magnetic '
+              'responses are not stored at the index arrays of '
+              '_irec_types paired with the coordinates of the same type: '
+              'with mixed receiver types data are attached to other '
+              'receivers than the adjoint sources', ctx.where(sm, gr_))
+    su_ = ctx.repo.mod('emg3d/surveys.py')
+    irt = su_.method('Survey', '_irec_types')
+    ok = has("_t_ = tuple([_r_.xtype == 'electric' for _r_ in "
+             "self.receivers.values()])", irt) and \
+        has('self._ierec = np.nonzero(_t_)[0]', irt) and \
+        has('self._imrec = np.nonzero(np.logical_not(_t_))[0]', irt)
+    ctx.check('C07.AS.source', '_irec_types: index arrays in survey order',
+              ok, 'electric / magnetic receiver indices are not the '
+              'positions of these receivers in the survey',
+              ctx.where(su_, irt))
     # tolerance of the back-propagation
     bc = sm.method('Simulation', '_bcompute')
     ctx.check('C07.AS.tol', 'back-propagation uses tol_gradient',
